@@ -20,7 +20,15 @@ def main(argv=None):
     mod = importlib.import_module(f"vlib.props.{a.prop.lower()}")
     if a.replay:
         return mod.replay(a.replay)
-    return mod.run(a.tier, seed, only=a.only)
+    # one scratch directory for the whole run (every obligation runs in its own forked process), removed at the end
+    import shutil
+    import tempfile
+    scratch = tempfile.mkdtemp(prefix="reduino-verif-", dir=os.environ.get("VERIF_SCRATCH") or None)
+    os.environ["VERIF_SCRATCH_RUN"] = scratch
+    try:
+        return mod.run(a.tier, seed, only=a.only)
+    finally:
+        shutil.rmtree(scratch, ignore_errors=True)
 
 
 if __name__ == "__main__":
